@@ -2,6 +2,7 @@ package main
 
 import (
 	"bytes"
+	"sort"
 	"context"
 	"encoding/json"
 	"fmt"
@@ -269,6 +270,7 @@ func engineCLISearch(ctx *Ctx) {
 			printedN := -1
 			var printed vlib.Ranked
 			var unmatched []string
+			var listNames []string
 			lower := strings.ToLower(format)
 			switch lower {
 			case "json":
@@ -302,7 +304,7 @@ func engineCLISearch(ctx *Ctx) {
 			default:
 				n, names, _ := ListBlock(res.Stdout)
 				printedN = n
-				_ = names
+				listNames = names
 				ctx.R.Path("format-list", 1)
 			}
 			recoveryPath := strings.Contains(res.Stdout, "Warning: Search had issues")
@@ -351,6 +353,27 @@ func engineCLISearch(ctx *Ctx) {
 					default:
 						ctx.R.Path("rank-order-compared", 1)
 					}
+				}
+			}
+			// list format: the printed command lines are the engine's commands, in rank order where the scores are distinct
+			if listNames != nil && stable && printedN == len(refRes) && !noColorIrrelevant(noColorFlag, noColorEnv) {
+				want := make([]string, len(refRes))
+				distinctScores := true
+				for i, x := range refRes {
+					want[i] = x.Command.Command
+					if i > 0 && refRes[i-1].Score == x.Score {
+						distinctScores = false
+					}
+				}
+				gotS, wantS := append([]string(nil), listNames...), append([]string(nil), want...)
+				sort.Strings(gotS)
+				sort.Strings(wantS)
+				if fmt.Sprint(gotS) != fmt.Sprint(wantS) || (distinctScores && fmt.Sprint(listNames) != fmt.Sprint(want)) {
+					ctx.R.Violate(vlib.Violation{Property: "C17", Clause: "printed-differs-from-engine", Path: path,
+						Detail:  "the numbered entries printed are not the engine's results in rank order",
+						Witness: map[string]interface{}{"case": cs, "printed": listNames, "engine": want}})
+				} else {
+					ctx.R.Path("list-order-compared", 1)
 				}
 			}
 			if printedN > 0 {
@@ -519,3 +542,6 @@ func engineCLICommands(ctx *Ctx) {
 		}
 	}
 }
+
+// noColorIrrelevant: the list parser needs colour off to read command lines reliably.
+func noColorIrrelevant(flag bool, env string) bool { return !flag && env == "" }
